@@ -183,6 +183,40 @@ Definition zero_bytes (n : nat) : list N := repeat 0%N n.
 (* tls13GenerateEarlySecret: HKDF-Extract(zeroSalt[hashLen], psk or dummyPsk[hashLen]) *)
 Definition early_secret_model (sha3 : bool) (psk : option (list N)) : res (list N) :=
   hkdf_extract_model sha3 (zero_bytes (hash_size sha3)) (match psk with Some p => p | None => zero_bytes (hash_size sha3) end).
+(* ------------------------------------------------------------------ which PSK the stored Early Secret comes from
+   tls13GenerateEarlySecret 152-236 keeps the Early Secret across calls (tls13KsState.generateEarlySecretDone) and
+   regenerates it only `if (tls13DidEncodePsk && !tls13UsingPsk)`: "we tried to use a PSK (and thus bootstrapped our key
+   schedule with it), but ended up with a non-PSK handshake".
+     es_from  = the PSK the stored secret was extracted from (None = the all-zero dummyPsk)
+   tls13EncodeExt.c tls13WritePskIdentity sets tls13DidEncodePsk for every identity written (ticket or external);
+   tls13DecodeExt.c tls13ParsePreSharedKey (client, ServerHello) sets tls13ChosenPsk / tls13UsingPsk when the server selected,
+   tls13Encode.c selectKeyExchangeMode / tls13ServerFoundSupportedPsk do so on the server. *)
+Record es_state := { es_done : bool; es_from : option (list N); es_value : list N }.
+Definition es_init : es_state := {| es_done := false; es_from := None; es_value := [] |}.
+Definition generate_early_secret_model (sha3 : bool) (st : es_state) (didEncodePsk usingPsk : bool) (psk : option (list N)) : res es_state :=
+  if es_done st && (negb didEncodePsk || usingPsk) then Ok st                   (* return PS_SUCCESS: keep what we have *)
+  else bind (early_secret_model sha3 psk) (fun v => Ok {| es_done := true; es_from := psk; es_value := v |}).
+
+(* client: binders of the offered PSK while writing the ClientHello, then - ServerHello parsed, tls13ClientActivateHsReadKeys -
+   tls13GenerateEarlySecret(ssl, tls13ChosenPsk) before tls13DeriveHandshakeTrafficSecrets (which calls it once more) *)
+Definition client_early_secret_model (sha3 : bool) (offered : option (list N)) (selected : bool) : res es_state :=
+  let did := match offered with Some _ => true | None => false end in
+  bind (match offered with
+        | Some p => generate_early_secret_model sha3 es_init did false (Some p)    (* tls13WritePreSharedKey: binder key *)
+        | None => Ok es_init end) (fun st1 =>
+  let chosen := if selected then offered else None in
+  let use_psk := selected && did in
+  bind (generate_early_secret_model sha3 st1 did use_psk chosen) (fun st2 =>       (* tls13ClientActivateHsReadKeys *)
+  generate_early_secret_model sha3 st2 did use_psk chosen)).                        (* tls13DeriveEarlySecrets again *)
+(* server: tls13VerifyBinder -> tls13DeriveEarlySecrets(chosen) only when it found a PSK; then the same call from
+   tls13DeriveHandshakeTrafficSecrets with tls13ChosenPsk (NULL when it declined) *)
+Definition server_early_secret_model (sha3 : bool) (offered : option (list N)) (selected : bool) : res es_state :=
+  let chosen := if selected then offered else None in
+  let use_psk := match chosen with Some _ => true | None => false end in
+  bind (match chosen with
+        | Some p => generate_early_secret_model sha3 es_init false use_psk (Some p)
+        | None => Ok es_init end) (fun st1 =>
+  generate_early_secret_model sha3 st1 false use_psk chosen).
 (* tls13DeriveEarlySecrets: the binder secret (label by psk->isResumptionPsk) *)
 Definition binder_secret_model (sha3 isres : bool) (early : list N) : res (list N) :=
   derive_secret_model sha3 early
@@ -199,6 +233,12 @@ Definition hs_secrets_model (sha3 : bool) (early : list N) (shared : option (lis
   bind (derive_secret_model sha3 hs l_c_hs_traffic snapCHtoSH) (fun c =>
   bind (derive_secret_model sha3 hs l_s_hs_traffic snapCHtoSH) (fun s =>
     Ok {| m_handshake := hs; m_c_hs := c; m_s_hs := s |})))).
+
+(* the Handshake Secret and the two handshake traffic secrets a side ends up with *)
+Definition side_hs_secrets_model (sha3 is_server : bool) (offered : option (list N)) (selected : bool)
+           (shared : option (list N)) (snapCHtoSH : list N) : res hs_secrets :=
+  bind ((if is_server then server_early_secret_model else client_early_secret_model) sha3 offered selected) (fun st =>
+  hs_secrets_model sha3 (es_value st) shared snapCHtoSH).
 
 Record app_secrets := { m_master : list N; m_c_ap : list N; m_s_ap : list N }.
 (* tls13DeriveAppTrafficSecrets: snapshot = tls13TrHashSnapshot taken after the server Finished *)
